@@ -36,7 +36,8 @@ func (dt *deleteTracker[Obj]) getRevision() uint64 {
 // 'minRevision'. The deleted objects are not garbage-collected unless 'Mark' is
 // called!
 func (dt *deleteTracker[Obj]) deleted(txn ReadTxn, minRevision Revision) *iterator[Obj] {
-	indexEntry := txn.root()[dt.table.tablePos()].indexes[GraveyardRevisionIndexPos]
+	// Only committed deletions are observed, also when given a WriteTxn.
+	indexEntry := txn.committedRoot()[dt.table.tablePos()].indexes[GraveyardRevisionIndexPos]
 	objs, _ := indexEntry.lowerBoundNext(index.Uint64(minRevision))
 	return &iterator[Obj]{objs}
 }
